@@ -219,6 +219,11 @@ func BuildRoot(w *World, root string, lib *OpLib) {
 		// R1 with a large loan outstanding for 30 days under the default every-block sweep: the
 		// interest is booked, so the vault's redemption rate sits visibly above 1 (≈ 1.005)
 		prefix = []string{"perp_open_long_t1", "perp_open_short_t2", "llp_open_t1_x3", "swap_in_p1_usdc_atom_L", "swap_in_p2_elys_usdc_L", "gap_1d", "mc_claim_lp1", "commit_eden_lp1", "vest_eden_lp1", "stake_elys_lp1", "llp_open_t2_x5", "gap_30d", "bond_lp1_L"}
+	case "R19":
+		// SECOND VENUE (wide.go): R1 plus a second oracle pool
+		// (v4, uelys/uusdc) enabled for leveraged LP — second accounted pool, second perpetual pool — with
+		// open positions of both modules in BOTH venues (t1 holds a perpetual position in each), locks expired
+		prefix = []string{"perp_open_long_t1", "perp_open_short_t2", "llp_open_t1_x3", "swap_in_p1_usdc_atom_L", "swap_in_p2_elys_usdc_L", "gap_1d", "mc_claim_lp1", "commit_eden_lp1", "vest_eden_lp1", "stake_elys_lp1", "v4_create_lp1", "cfg_llp_addpool_v4", "v4_perp_open_long_t1", "v4_perp_open_short_t3", "v4_llp_open_t2_x3", "v4_swap_in_usdc_elys_L", "gap_61m"}
 	case "R2":
 		// degraded: pool 1 far off target, vault highly utilised, dust positions
 		prefix = []string{"llp_open_t2_x5", "perp_open_long_t1", "swap_in_p1_usdc_atom_XL", "unbond_lp2_L", "perp_open_short_t2_dust", "gap_1h"}
